@@ -127,6 +127,11 @@ func adam(f func(ConstVector) (MagicScalar, error), x0 ConstVector, step_size, b
     for i := 0; i < n; i++ {
       moment_m[i] = beta1*moment_m[i] + (1.0-beta1)*gradient[i]
       moment_v[i] = beta2*moment_v[i] + (1.0-beta2)*gradient[i]*gradient[i]
+      if math.IsInf(moment_v[i], 0) {
+        // the squared gradient overflowed: every further step would be
+        // m/sqrt(Inf) = 0 and the loop would never make progress
+        return x1, fmt.Errorf("gradient too large: overflow in the second moment estimate")
+      }
       m_hat := moment_m[i]/(1.0 - beta1_t)
       v_hat := moment_v[i]/(1.0 - beta2_t)
       x2.At(i).SetFloat64(x1.Float64At(i) - step_size*m_hat/(math.Sqrt(v_hat) + 1e-8))
